@@ -6,5 +6,5 @@ cd "$(dirname "$0")" || exit 2
 mkdir -p target/runall
 for id in $ids; do
   VERIF_SEED=$seed RV_KEEP_FOREIGN=1 ./check $id $tier > target/runall/$id.$seed.log 2>&1
-  echo "$id seed=$seed exit=$? $(grep -c '^VIOLATION' target/runall/$id.$seed.log) viol; $(grep -c '^KNOWN-FINDING' target/runall/$id.$seed.log) known; $(tail -1 target/runall/$id.$seed.log)"
+  echo "$id seed=$seed exit=$? $(grep -c '^VIOLATION' target/runall/$id.$seed.log) viol; $(grep -c '^KNOWN-FINDING' target/runall/$id.$seed.log) known; foreign=$(jq -c '.coverage.other_property_symptoms_seen // {}' evidence/$id.json 2>/dev/null) inconclusive=$(jq -c '.coverage.inconclusive_cases // 0' evidence/$id.json 2>/dev/null); $(tail -1 target/runall/$id.$seed.log)"
 done
